@@ -239,6 +239,12 @@ class ABuf:
     def hex(self):
         return "<abuf>"
 
+    def __getattr__(self, name):
+        # a bytes / bytearray method the abstraction does not have: inconclusive, never "the code raised AttributeError"
+        if name.startswith("_"):
+            raise AttributeError(name)
+        raise Unsupported("bytes.%s on an abstract buffer is not modelled" % name)
+
     # --- byte order of opaque values (digests, tokens): a fresh integer rank per
     # distinct description, unconstrained otherwise - "some contents make a > b"
     # is satisfiable exactly when nothing sorted them.
